@@ -153,8 +153,25 @@ def norm_msg(e):
     return s[:60]
 
 
+def _jkeys(x):
+    """Mapping keys as a JSON column stores them (7 -> '7', true, null)."""
+    if isinstance(x, dict):
+        out = {}
+        for k, v in x.items():
+            if not isinstance(k, str):
+                try:
+                    k = json.dumps(k)
+                except (TypeError, ValueError):
+                    k = repr(k)
+            out[k] = _jkeys(v)
+        return out
+    if isinstance(x, (list, tuple)):
+        return [_jkeys(v) for v in x]
+    return x
+
+
 def jcanon(x):
-    return json.dumps(x, sort_keys=True, default=repr)
+    return json.dumps(_jkeys(x), sort_keys=True, default=repr)
 
 
 class NotJson(Exception):
